@@ -454,6 +454,8 @@ def run(ctx: RuleContext, p: Program) -> None:
     # the raw list is one of the views: it answers as a Python list of its items does (items of equal content included)
     from . import nodesem as _ns
     ctx.try_rule(_ns.rule_node_sem, p, 'NODE-SEM', 3 if ctx.tier == 'quick' else 4)
+    from . import descsem as _ds
+    ctx.try_rule(_ds.rule_desc_sem, p, 'DESC-SEM')
     ctx.try_rule(rule_cache_dep, p, 'CACHE-DEP')
     ctx.try_rule(rule_map_first, p, 'MAP-FIRST')
     from . import idxspace
